@@ -323,6 +323,13 @@ def step (line : String) : String :=
     | .ok "cleandoc" =>
       let t := (optStr j "text").getD []
       (resJson (FuncDoc.cleandoc t) fun x => Json.str (String.ofList x)).compress
+    | .ok "func_kind" =>
+      let ir := match j.getObjVal? "ir" with | .ok i => irOfJson i | _ => {}
+      let emit := (j.getObjValAs? Bool "emit").toOption.getD true
+      let inl := (j.getObjValAs? Bool "inline").toOption.getD false
+      let level := (j.getObjValAs? Nat "indent_level").toOption.getD 2
+      let st := (j.getObjValAs? Bool "emit_separating_tab").toOption.getD true
+      (resJson (FuncKind.funcKindRT ir inl emit level st) irToJson).compress
     | .ok "unwrap" =>
       -- what `_set_name_and_type` (word_wrap on) reads back from wrapped, indented prose
       let t := (optStr j "text").getD []
